@@ -690,7 +690,18 @@ impl EGraph {
             self.report_level,
             context,
         )?;
-        if let Some(message) = self.panic_message.lock().unwrap().take() {
+        let panic_message = self.panic_message.lock().unwrap().take();
+        if let Some(message) = panic_message {
+            // Actions that ran before the panic have already been merged into
+            // the database. Restore the canonical-form invariant before
+            // surfacing the error, so callers that recover from it (REPL,
+            // `(fail ...)`, library users) do not observe stale ids.
+            if self.db.get_table(self.uf_table).len() != uf_size_before {
+                self.rebuild()?;
+                self.panic_message.lock().unwrap().take();
+            } else {
+                self.inc_ts();
+            }
             return Err(PanicError(message).into());
         }
 
